@@ -480,6 +480,38 @@ def extra_stages(res: Result) -> None:
                     if why and not why.startswith("nonmember"):
                         res.violate(Violation(ID, "sessions", why.partition("|")[0], case, f"sessions with limits {limits} sharing one logger: the session with limit {k} logged {O.show(T)}: {why.partition('|')[2]}"))
     res.oblige("saw:sessions-sharing-a-logger", True)
+    # (d) ONE generator call that yields several string-keyed dicts, each too large for the limit, whose values are small
+    #     dicts (the yield type accumulates as a union of Dict[str, TypedDict] members): stubbed through the default
+    #     rewriter chain, each shipped rewriter alone, and no rewriter
+    from monkeytype import typing as MT
+
+    rws = [("default", DEFAULT_REWRITER), ("none", None)] + [(type(r).__name__, r) for r in (MT.RemoveEmptyContainers(), MT.RewriteConfigDict(), MT.RewriteLargeUnion(), MT.RewriteGenerator())]
+    for k in (1, 2, 3):
+        for nyields in (2, 3):
+            for same_outer in (True, False):
+                vals = []
+                for y in range(nyields):
+                    inner = {f"f{y}_{j}": j for j in range(k)}
+                    vals.append({(f"o{i}" if same_outer else f"o{y}_{i}"): dict(inner) for i in range(k + 1)})
+                tr = CallTrace(S.genfunc, {"n": int})
+                for v in vals:
+                    tr.add_yield_type(get_type(v, k))
+                tr.return_type = type(None)
+                for rname, rw in rws:
+                    res.states += 1
+                    res.transitions += 1
+                    res.evaluations += 1
+                    res.validated += 1
+                    case = {"values": [repr(v) for v in vals], "k": k, "stage": "one-call-many-yields", "rewriter": rname}
+                    try:
+                        text = build_module_stubs_from_traces([tr], k, rewriter=rw)["vfx.shapes"].render()
+                    except Exception as e:  # noqa: BLE001
+                        res.violate(Violation(ID, "stub", "exception", case, f"one generator call yielding {nyields} dicts, rewriter {rname}: raised {e!r}"))
+                        continue
+                    why = check_stub_text(text, k)
+                    if why:
+                        res.violate(Violation(ID, "stub", "one-call-many-yields:" + why.partition("|")[0], case, f"one generator call yielding {nyields} oversize dicts of small dicts, limit {k}, rewriter {rname}: {why.partition('|')[2]} :: {text[:400]}"))
+    res.oblige("saw:one-call-many-yields", True)
 
 
 def run(ctx: Ctx) -> Result:
@@ -506,7 +538,7 @@ def run(ctx: Ctx) -> Result:
     default_config_check(res)
     extra_stages(res)
     res.bounds.update({"k": KS, "multisets": len(ms), "stages": STAGES, "max_keys": 12})
-    for o in ("saw:sessions-sharing-a-logger", "saw:restub-stage", "saw:generator-stage", "saw:cli-stub-class", "saw:typed-dict-kept", "saw:typed-dict-collapsed-or-absent", "saw:stub-class", "saw:stub-nontotal-chain"):
+    for o in ("saw:sessions-sharing-a-logger", "saw:one-call-many-yields", "saw:restub-stage", "saw:generator-stage", "saw:cli-stub-class", "saw:typed-dict-kept", "saw:typed-dict-collapsed-or-absent", "saw:stub-class", "saw:stub-nontotal-chain"):
         res.obligations.setdefault(o, False)
     return res
 
